@@ -39,7 +39,11 @@ RULE = (
     "parameter set {default, I, beta, kappa, alpha, g, all} x layout {time, (time,latitude), flattened} x batch "
     "members (start node it in 5 values around the last scanned window start) x (c in 5e-5, 2e-4, 1e-3) x "
     "(tail direction every 15 deg); layout 'no leading dims' on the restriction c=2e-4, direction in {30,195}, "
-    "parameter set in {default, all}. words family: every word over {0,1,3,NaN}^6 x 2 grids x layouts x "
+    "parameter set in {default, all}. zero family (same product on the restriction NaN class none, parameter "
+    "set in {default, all}): the limb is exactly zero / the limb is followed by number_of_bins+2 exactly-zero "
+    "bins / everything above a range that ends inside the grid is exactly zero, range start in "
+    "{3, number_of_bins, number_of_bins+3, last admissible start, first inadmissible}: windows without any "
+    "energy are scanned and are no candidates. words family: every word over {0,1,3,NaN}^6 x 2 grids x layouts x "
     "conventions x parameter sets {default, all}. 2d family: every single bin / adjacent pair / mirror pair of "
     "the N=8 and N=12 direction grids. A member is non-trivial when E_eq > 0 and the oracle for its method "
     "applies (mean: an admissible clean window inside the f^-4 range with margin); distinct = distinct "
@@ -50,7 +54,8 @@ ASSUMPTIONS = [
     "lattice, not continuum: nothing is claimed for spectra, parameters or grids outside the stated alphabets",
     "mean method: 'exactly c' is demanded only if a NaN-free number_of_bins window inside the f^-4 range is among "
     "the scanned starts (start < argmin|f-fmax|+1-number_of_bins) and all other NaN-free scanned windows have "
-    "relative variance > 1e-6; any window inside the range is accepted (they all give c); for other spectra "
+    "relative variance > 1e-6 (a window whose bins are all exactly zero carries no energy and is no candidate, "
+    "c > 0); any window inside the range is accepted (they all give c); for other spectra "
     "the mean method's level is not defined by the property and is not compared",
     "the direction of the f^-4 range is constant over the range (how a1/b1 are averaged over a window is not "
     "part of the property)",
@@ -63,7 +68,7 @@ REQUIRED_CATEGORIES = [
     "peak_compared", "mean_compared", "mean_not_applicable", "mean_nan_window_competes", "peak_overshoot_differs_from_c",
     "nan_bin", "coming_from_compared", "nondefault_params", "layout_time_lat", "layout_flat", "layout_scalar",
     "two_d_single_bin", "two_d_pair", "words_peak_compared", "words_tie_or_zero_trivial", "scaling_compared",
-    "u10_loglaw_compared", "direction_q1", "direction_q2", "direction_q3", "direction_q4", "range_ends_inside_grid",
+    "zero_window_scanned_and_range_admissible", "u10_loglaw_compared", "direction_q1", "direction_q2", "direction_q3", "direction_q4", "range_ends_inside_grid",
     "wrap_seam",
 ]
 
@@ -187,9 +192,14 @@ def classify_member(f, e, a1, b1, it, it_end, n_starts, nb):
     # ---- mean method -------------------------------------------------------------------------
     inrange = [it <= k <= it_end and scaled[k] == scaled[k] for k in range(nf)]
     good, margin_ok, nan_competes, degenerate = [], True, False, False
+    out["zero_windows"] = 0
     for s in range(n_starts):
         win = scaled[s:s + nb]
         clean = all(x == x for x in win)
+        if clean and all(x == 0.0 for x in win):
+            # a window without any energy is no candidate for the equilibrium range (c > 0)
+            out["zero_windows"] += 1
+            continue
         rv = relvar(win)
         if rv != rv:
             degenerate = True
@@ -219,6 +229,14 @@ def units(tier):
                 for end in ENDS:
                     us.append({"name": f"tail:{g}:{sc}:{limb}:{end}", "kind": "tail", "grid": g, "scan": sc,
                                "limb": limb, "end": end, "cost": 10})
+    # zero family: stretches of exactly-zero bins long enough to fill a scanned window - the whole limb,
+    # a gap between limb and range, everything above the range (restricted to NaN class none and the
+    # parameter sets default / all)
+    for g in grids(tier):
+        for sc in scans(tier):
+            for limb, end in (("zero", "grid_end"), ("zero_gap", "grid_end"), ("zero", "inside"), ("below", "inside_zero")):
+                us.append({"name": f"zero:{g}:{sc}:{limb}:{end}", "kind": "tail", "family": "zero", "grid": g, "scan": sc,
+                           "limb": limb, "end": end, "nans": ["none"], "psets": ["default", "all"], "cost": 1})
     for wg in ("W1", "W2"):
         for part in range(4):
             us.append({"name": f"words:{wg}:{part}", "kind": "words", "grid": wg, "part": part, "cost": 3})
@@ -309,13 +327,17 @@ def it_alphabet(nf, n_starts, nb):
     return sorted(v for v in vals if 3 <= v <= nf - 2)
 
 
-def tail_member(f, it, it_end, c0, theta, limb, nan_idx):
+def tail_member(f, it, it_end, c0, theta, limb, nan_idx, zero_top=False, zero_gap=0):
     nf = len(f)
     k = np.arange(nf)
     ft, fe = f[it], f[it_end]
     with np.errstate(divide="ignore"):
         e = np.where(k >= it, c0 * np.where(f > 0, f, 1.0) ** -4.0, c0 * ft ** -4.0 * (f / ft) ** 2.0)
-    e = np.where(k > it_end, c0 * fe ** -4.0 * (f / fe) ** -6.0, e)
+    e = np.where(k > it_end, 0.0 if zero_top else c0 * fe ** -4.0 * (f / fe) ** -6.0, e)
+    if limb == "zero":            # no energy at all below the range
+        e = np.where(k < it, 0.0, e)
+    elif limb == "zero_gap":      # rising limb, then number_of_bins+2 empty bins, then the range
+        e = np.where((k < it) & (k >= it - zero_gap), 0.0, e)
     if limb == "overshoot":
         j = it - 3
         if f[j] > 0:
@@ -356,21 +378,28 @@ def run_tail(unit):
     nf = len(f)
     n_starts = n_window_starts(f, fmax, nb)
     its = it_alphabet(nf, n_starts, nb)
+    zero_family = unit.get("family") == "zero"
+    if zero_family and limb != "below":
+        # the empty stretch must be able to hold a whole window: range starts at / just above number_of_bins
+        its = sorted({3} | {v for v in (nb, nb + 3, n_starts - 1, n_starts) if nb <= v <= nf - 2})
+    nan_classes = unit.get("nans", NAN_CLASSES)
+    all_psets = unit.get("psets", list(PARAMS))
     members = [(it, c0, th) for it in its for c0 in LEVELS for th in THETAS]
     scalar_members = [i for i, (it, c0, th) in enumerate(members) if c0 == 2e-4 and th in (30.0, 195.0)]
-    ukey = {"family": "tail", "grid": unit["grid"], "scan": unit["scan"], "limb": limb, "end": end}
+    ukey = {"family": unit.get("family", "tail"), "grid": unit["grid"], "scan": unit["scan"], "limb": limb, "end": end}
     scalar_mean_raises = 0
     scalar_mean_example = None
     nan_window_bad = {}
 
-    for nan_cls in NAN_CLASSES:
+    for nan_cls in nan_classes:
         n = len(members)
         E = np.empty((n, nf)); A1 = np.empty((n, nf)); B1 = np.empty((n, nf))
         info = []
         for i, (it, c0, th) in enumerate(members):
             it_end = nf - 1 if end == "grid_end" else min(it + nb + 1, nf - 1)
             ni = nan_index(nan_cls, it, it_end, nb, n_starts, nf)
-            E[i], A1[i], B1[i] = tail_member(f, it, it_end, c0, th, limb, ni)
+            E[i], A1[i], B1[i] = tail_member(f, it, it_end, c0, th, limb, ni, zero_top=(end == "inside_zero"),
+                                             zero_gap=nb + 2)
             m = classify_member(f, E[i], A1[i], B1[i], it, it_end, n_starts, nb)
             m.update(it=it, c=c0, theta=th, it_end=it_end, nan_idx=ni)
             info.append(m)
@@ -382,11 +411,12 @@ def run_tail(unit):
         regular = mcls == "regular"
         competes = mcls == "nan_competes"
         c.cat("mean_not_applicable", int(np.sum(mcls == "not_applicable")))
+        c.cat("zero_window_scanned_and_range_admissible", int(np.sum([m["zero_windows"] > 0 and m["mean_class"] == "regular" for m in info])))
         c.cat("mean_nan_window_competes", int(np.sum(competes)))
         c.cat("peak_overshoot_differs_from_c", int(np.sum(~close(peak_level, cvals, rtol=1e-9))))
         if nan_cls != "none":
             c.cat("nan_bin", n)
-        if end == "inside":
+        if end != "grid_end":
             c.cat("range_ends_inside_grid", int(np.sum([m["it_end"] < nf - 1 for m in info])))
         quadrant_cats(c, theta)
         c.case({"unit": unit["name"], "nan": nan_cls, "members": n})
@@ -404,7 +434,7 @@ def run_tail(unit):
             else:
                 sel = list(range(n))
                 specs = [build_1d(f, E, A1, B1, layout)]
-                psets = list(PARAMS)
+                psets = all_psets
                 c.cat("layout_" + layout, n)
             sel = np.array(sel)
             for method in METHODS:
